@@ -94,6 +94,11 @@ def plan(tier):
         "Ach_TimeCheck": ["", "POOR"],
         "Ach_AttitudeCheck": ["GOOD"],
     }
+    # the scene id's acquisition date as it surfaces in /summary/scene_specification: every two-digit year, and every day
+    # from 27 December to 4 January (calendar year vs week-numbering year) of seven years
+    sid_dates = [f"{yy:02d}0506" for yy in range(100)] + [f"{yy:02d}{md}" for yy in (14, 15, 16, 18, 20, 24, 26) for md in ("1227", "1228", "1229", "1230", "1231", "0101", "0102", "0103", "0104")] + ["160229", "000229"]
+    for d in sid_dates:
+        cases.append({"spec": sc, "lines": set_value(base, "Scs_SceneID", f"ALOS2014410740-{d}"), "label": f"Scs_SceneID date {d}"})
     for key, vals in TYPED.items():
         for v in vals:
             cases.append({"spec": sc, "lines": set_value(base, key, v), "label": f"{key}={v!r}"})
